@@ -28,7 +28,7 @@ ASSUMPTIONS = ['whether the callee name is looked up before or after its argumen
 REAL = ['smartquery.*']
 STUB = ['host probes t / boom (scripted, with a fault plan)']
 REACH_PROBES = ('lazy_and', 'lazy_or', 'if', 'probe_raise_fired', 'slice', 'dict_literal', 'setitem', 'setitemop',
-                'short', 'lambda_body_probe', 'literal_leaf_next_to_lazy', 'call_args', 'del', 'lamcall', 'undefined_callee', 'same_operand_twice', 'lazy_right_changes_left', 'nested_lambda_calls')
+                'short', 'lambda_body_probe', 'literal_leaf_next_to_lazy', 'call_args', 'del', 'lamcall', 'undefined_callee', 'same_operand_twice', 'lazy_right_changes_left', 'nested_lambda_calls', 'lambda_of_earlier_call')
 
 TRUTHY = {'num': [['num', '1'], ['num', '2.5'], ['neg', ['num', '3']]], 'str': [['str', 'a'], ['str', '0']],
           'bool': [['bool', True]], 'list': [['list', [['num', '1']]], ['list', [['list', []]]]], 'none': [['num', '7']]}
@@ -296,6 +296,15 @@ def generate(seed, tier):
     for _ in range(n_st):
         st = sh.stmt(ro.choice([2, 3, 3, 4]))
         stmts.extend(st[1] if st[0] == 'block' else [st])
+    prelude = None
+    if rc.random() < 0.12:
+        # an EARLIER evaluation on the same parser and names mapping left a lambda behind; this program calls it: its
+        # parameter decides a lazy operator inside the body
+        lz = rc.choice(['and', 'or'])
+        prelude = ['block', [['assign', 'g', ['lambda', ['v'], ['bin', lz, ['call', 't', [['num', '90'], ['name', 'v']], 'plain'],
+                                                                  ['call', 't', [['num', '91'], ['name', 'v']], 'plain']]]]]]
+        stmts.append(['call', 'g', [sh.leaf('num', True)], 'plain'])
+        sh.kinds.add('lambda_of_earlier_call')
     prog = ['block', stmts]
     holes = sh.holes
     if len(holes) <= 5:
@@ -316,7 +325,7 @@ def generate(seed, tier):
             ops.append(dict(op, probe_fault=rf.randint(1, min(nprobes + 1, 12))))
             if rf.random() < 0.3:
                 ops[-1]['probe_fault_kind'] = 'stop'      # the host function raises StopIteration (an iterator behind it ran dry)
-    world = {'names': {'L': [{'d': '1'}, {'d': '2'}, {'d': '3'}, 4], 'M': [10, 20], 'cnt': {'d': '5'}, 'J': ['a'], 'E': []}, 'host_fns': ['t']}
+    world = {'prelude': prelude, 'names': {'L': [{'d': '1'}, {'d': '2'}, {'d': '3'}, 4], 'M': [10, 20], 'cnt': {'d': '5'}, 'J': ['a'], 'E': []}, 'host_fns': ['t']}
     return {'world': world, 'ops': ops, 'kinds': sorted(sh.kinds), 'n_probes': sh.n}
 
 
@@ -327,6 +336,8 @@ def execute(case, ctx):
     for step, op in enumerate(case['ops']):
         ctx.step = step
         W = history.World(case['world'])
+        if case['world'].get('prelude'):
+            W.eval_and_judge(ctx, {'prog': case['world']['prelude']}, step)
         judged, rout, mout = W.eval_and_judge(ctx, op, step)
         ctx.op_kind(mout[0])
         if not judged:
